@@ -2,7 +2,7 @@
 # dev helper: generate + verify one unit
 cd /verif/tools && python3 -c "
 import gen,sys
-g=gen.Gen('/repo', '/tmp/walrus-expanded.rs')
+g=gen.Gen('/repo', '/var/tmp/walrus-expanded.rs')
 g.run('$1.vrs')
 g.write('/verif/gen/$1.rs')
 " && cd /verif/gen && RUST_MIN_STACK=2000000000 verus $1.rs --triggers-mode silent ${@:2} 2>&1 | head -${LINES_MAX:-100}
